@@ -96,8 +96,73 @@ def conjuncts(test: ast.expr, polarity: bool = True) -> list[tuple[ast.expr, boo
     return [(test, polarity)]
 
 
+# single-return helpers of the analysed package: bare name -> (parameter names, returned
+# expression); filled by SourceModel after parsing, only for names defined exactly once
+SIMPLE_HELPERS: dict[str, tuple[list[str], ast.expr]] = {}
+
+
+def register_simple_helpers(funcs) -> None:
+    """funcs: iterable of (name, ast.FunctionDef).  A helper is *simple* when its body is
+    (a docstring and) one `return <expr>`, it has no *args/**kwargs/defaults-free surprises and
+    its name is unique in the package: a call to it is the returned expression with the
+    arguments put in place of the parameters."""
+    SIMPLE_HELPERS.clear()
+    seen: dict[str, int] = {}
+    cand = {}
+    for name, node in funcs:
+        seen[name] = seen.get(name, 0) + 1
+        body = [b for b in node.body if not (isinstance(b, ast.Expr) and isinstance(b.value, ast.Constant)
+                                             and isinstance(b.value.value, str))]
+        if len(body) == 1 and isinstance(body[0], ast.Return) and body[0].value is not None \
+                and not node.args.vararg and not node.args.kwarg and not node.args.kwonlyargs \
+                and not any(isinstance(d, ast.Name) and d.id == "property" or
+                            (isinstance(d, ast.Attribute) and d.attr in ("setter", "getter"))
+                            for d in node.decorator_list) \
+                and not name.startswith("__"):
+            params = [a.arg for a in node.args.args]
+            if params and params[0] in ("self", "cls"):
+                # only helpers that do not use their receiver
+                if any(isinstance(x, ast.Name) and x.id == params[0] for x in ast.walk(body[0].value)):
+                    continue
+                params = params[1:]
+            cand[name] = (params, body[0].value)
+    for name, v in cand.items():
+        if seen.get(name) == 1:
+            SIMPLE_HELPERS[name] = v
+
+
+def expand_simple_call(c: ast.Call):
+    """The returned expression of a simple helper with the call's arguments substituted, or None."""
+    fn = c.func
+    name = fn.id if isinstance(fn, ast.Name) else fn.attr if isinstance(fn, ast.Attribute) else None
+    h = SIMPLE_HELPERS.get(name or "")
+    if h is None or c.keywords and any(k.arg is None for k in c.keywords):
+        return None
+    params, expr = h
+    amap = {}
+    for i, a in enumerate(c.args):
+        if i >= len(params) or isinstance(a, ast.Starred):
+            return None
+        amap[params[i]] = a
+    for k in c.keywords:
+        if k.arg not in params or k.arg in amap:
+            return None
+        amap[k.arg] = k.value
+    if set(amap) != set(params):
+        return None
+    import copy
+
+    class P(ast.NodeTransformer):
+        def visit_Name(self, node):
+            if node.id in amap:
+                return copy.deepcopy(amap[node.id])
+            return node
+    return P().visit(copy.deepcopy(expr))
+
+
 def resolve_local_chain(fn: ast.FunctionDef, e: ast.expr, depth: int = 6) -> str:
-    """Unparse *e* after substituting single-assignment locals by their value."""
+    """Unparse *e* after substituting single-assignment locals by their value (and calls of
+    simple single-return helpers by what they return)."""
     assigns: dict[str, list[ast.expr]] = {}
     for n in walk_no_nested(fn):
         if isinstance(n, ast.Assign) and len(n.targets) == 1 and isinstance(n.targets[0], ast.Name):
@@ -113,6 +178,14 @@ def resolve_local_chain(fn: ast.FunctionDef, e: ast.expr, depth: int = 6) -> str
             if self.d > 0 and node.id in assigns and len(assigns[node.id]) == 1:
                 import copy
                 return Sub(self.d - 1).visit(copy.deepcopy(assigns[node.id][0]))
+            return node
+
+        def visit_Call(self, node):
+            node = self.generic_visit(node)
+            if self.d > 0 and isinstance(node, ast.Call):
+                x = expand_simple_call(node)
+                if x is not None:
+                    return Sub(self.d - 1).visit(x)
             return node
 
     import copy
